@@ -53,6 +53,9 @@ pub struct Case {
     /// extra request settings for the generic path (None: the three-path comparison without settings)
     #[serde(default)]
     pub extra: Option<ExtraCase>,
+    /// timeout settings with this retry count are passed (None: no timeout settings); with them the first request of the exchange is lost once
+    #[serde(default)]
+    pub retries: Option<u8>,
 }
 
 /// Extra request settings: each member given or left out (toggles 0 skip, 1 try, 2 enforce).
@@ -219,7 +222,7 @@ impl Prop for C14 {
          same scripted server is queried through (A) games::query_with_timeout_and_extra_settings, (B) the game's dedicated module function and (C) the protocol's \
          query function with the definition's parameters. Oracle (differential): identical connection destinations and request bytes in the same order, and equal \
          outcomes: the same error kind, or equal responses after the documented conversion (generic variant unwrapped; valve::Response flattened to game::Response). \
-         Extra request settings (each of host name, protocol version, gather players, gather rules, app-id check given or left out; all 32 combinations enumerated for six games, random otherwise): the generic path with them must send the same bytes and give the same outcome as the protocol function with the equivalent settings (documented defaults for the members left out; for minecraftjava also the module function), and for protocols that ignore them the same as the generic path without them. non-trivial = port omitted or a non-valid behaviour; distinct = digest of the case"
+         Extra request settings (each of host name, protocol version, gather players, gather rules, app-id check given or left out; all 32 combinations enumerated for six games, random otherwise): the generic path with them must send the same bytes and give the same outcome as the protocol function with the equivalent settings (documented defaults for the members left out; for minecraftjava also the module function), and for protocols that ignore them the same as the generic path without them. Timeout settings with a retry count 0-2 for every table game, against a server that loses the first request once: the generic path and the protocol function must send the same requests (both try again, or neither) and give the same outcome. non-trivial = port omitted or a non-valid behaviour; distinct = digest of the case"
             .into()
     }
 
@@ -232,7 +235,7 @@ impl Prop for C14 {
     fn strategy(&self, _tier: Tier) -> BoxedStrategy<Case> {
         let ids: Vec<String> = scripted_game_ids().into_iter().map(|s| s.to_string()).collect();
         let plain = (prop::sample::select(ids.clone()), prop::option::of(any::<u16>()), prop::sample::select(BEHAVIOURS.to_vec()), 0u64 .. 4096)
-            .prop_map(|(game, port, behaviour, idx)| Case { game, port, behaviour, idx, extra: None });
+            .prop_map(|(game, port, behaviour, idx)| Case { game, port, behaviour, idx, extra: None, retries: None });
         // games whose protocol uses extra settings are drawn more often
         let mut weighted = ids.clone();
         for id in &ids {
@@ -255,7 +258,7 @@ impl Prop for C14 {
         )
             .prop_map(|(hostname, protocol_version, players, rules, check)| ExtraCase { hostname, protocol_version, players, rules, check });
         let with_extra = (prop::sample::select(weighted), prop::option::of(any::<u16>()), prop::sample::select(BEHAVIOURS.to_vec()), 0u64 .. 4096, extra)
-            .prop_map(|(game, port, behaviour, idx, extra)| Case { game, port, behaviour, idx, extra: Some(extra) });
+            .prop_map(|(game, port, behaviour, idx, extra)| Case { game, port, behaviour, idx, extra: Some(extra), retries: None });
         prop_oneof![1 => plain, 1 => with_extra].boxed()
     }
 
@@ -268,8 +271,23 @@ impl Prop for C14 {
             for port in [None, Some(40_123u16)] {
                 for b in BEHAVIOURS {
                     for idx in 0 .. nstates {
-                        v.push(Case { game: id.to_string(), port, behaviour: b, idx, extra: None });
+                        v.push(Case { game: id.to_string(), port, behaviour: b, idx, extra: None, retries: None });
                     }
+                }
+            }
+        }
+        // timeout settings with a retry count: the first request is lost once, every path has to try again (or none of them)
+        {
+            let mut ids: Vec<&str> = GAMES.keys().copied().collect();
+            ids.sort();
+            for (i, id) in ids.iter().enumerate() {
+                for r in 0u8 ..= 2 {
+                    // quick: one retry count per game, except for the few games with a protocol of their own (all counts)
+                    let own_protocol = matches!(GAMES.get(id).map(|g| &g.protocol), Some(Protocol::PROPRIETARY(_)));
+                    if tier == Tier::Quick && !own_protocol && (i + r as usize) % 3 != 0 {
+                        continue;
+                    }
+                    v.push(Case { game: id.to_string(), port: if i % 2 == 0 { None } else { Some(40_123) }, behaviour: Behaviour::Valid, idx: r as u64, extra: None, retries: Some(r) });
                 }
             }
         }
@@ -287,7 +305,7 @@ impl Prop for C14 {
                         rules: (mask & 8 != 0).then_some(((mask as usize / 3 + k) % 3) as u8),
                         check: (mask & 16 != 0).then_some(mask % 3 == 0),
                     };
-                    v.push(Case { game: game.to_string(), port: if mask % 2 == 0 { None } else { Some(40_123) }, behaviour: b, idx: mask as u64 % nstates, extra: Some(extra) });
+                    v.push(Case { game: game.to_string(), port: if mask % 2 == 0 { None } else { Some(40_123) }, behaviour: b, idx: mask as u64 % nstates, extra: Some(extra), retries: None });
                 }
             }
         }
@@ -376,6 +394,39 @@ impl Prop for C14 {
         }
         let Some(pe) = protocol_entry(game) else { return o };
         let ip = doc_ip();
+        if let Some(r) = case.retries {
+            // ---- timeout settings with a retry count; the first request of the exchange is lost once
+            let r = r as usize;
+            o.label(format!("with-timeout-settings retries={r}"));
+            o.nontrivial = true;
+            let lost_once = |fam: Family| -> Box<dyn crate::wire::Responder> {
+                Box::new(Faulty::new(server_for(game, fam, Behaviour::Valid, case.idx), fam, 0, 0, vec![Fault::Silent]).0)
+            };
+            let a_entry = Entry::Generic { game: game.to_string(), extra: None };
+            let run_a = run_scripted(lost_once(fam), || a_entry.call_json_opt(&ip, case.port, Some(r)));
+            let c_port = case.port.unwrap_or(g.default_port);
+            let run_c = if game == "mindustry" {
+                // the protocol's own function (the module wrapper is what the generic path calls)
+                let addr = std::net::SocketAddr::new(ip, c_port);
+                let t = crate::entries::timeout(r);
+                run_scripted(lost_once(fam), || gamedig::games::mindustry::protocol::query_with_retries(&addr, &t).map(|v| { let mut j = serde_json::to_value(&v).unwrap_or(Value::Null); crate::util::normalise_sets(&mut j); j }))
+            } else {
+                run_scripted(lost_once(fam), || pe.call_json_opt(&ip, Some(c_port), Some(r)))
+            };
+            let (wa, wc) = (wire_of(&run_a), wire_of(&run_c));
+            let detail = |info: Value| json!({"game": game, "port": case.port, "retries": r, "info": info,
+                "generic": {"result": run_a.ended.kind_str(), "wire": wa}, "protocol": {"result": run_c.ended.kind_str(), "wire": wc}});
+            if wa != wc {
+                o.fail(format!("C14|{game}|with retries|wire differs|generic vs protocol"), detail(json!({})));
+                return o;
+            }
+            let ra = outcome_of(&run_a).map(unwrap_variant);
+            let rc = outcome_of(&run_c);
+            if ra != rc {
+                o.fail(format!("C14|{game}|with retries|outcome differs|generic vs protocol"), detail(json!({"generic": ra.as_ref().map(brief).map_err(|e| e.clone()), "protocol": rc.as_ref().map(brief).map_err(|e| e.clone())})));
+            }
+            return o;
+        }
         if let Some(x) = &case.extra {
             // ---- extra request settings: the generic path with them == the protocol function (and, for Java, the module) with the equivalent settings
             use gamedig::protocols::types::{ExtraRequestSettings, GatherToggle};
